@@ -36,6 +36,11 @@ Loop fragment (kernel specs with `loops=True`; the block loops of CompoundInterv
       `islice(xs, k, None)` -> `xs.drop k`, `xs.append(e)` -> `xs ++ [e]`, `x = []` (element type from the spec's
       `locals`), `any(<elt> for <target> in <list>)` -> `List.any` (pure element) or the short-circuiting `pyAny`
       (element is a kernel call), `len(self)` / `self.length` of a CI -> `CI.length`.
+    * more list forms: `[e1, …]` literals, `[<elt> for x in <list>]` with a pure element -> `List.map`, `xs[:-1]` ->
+      `xs.dropLast`, `xs[::-1]` -> `xs.reverse`; element access `xs[0]`, `xs[-1]` (loads, stores and `xs[0] -= v`) go
+      through `listGetFirst/listGetLast/listSetFirst/listSetLast`, which raise on an empty list (IndexError, reported as
+      `.KeyError`: see GenPrelude); `<frame>.shift(n)` on a CDSFrame-typed expression calls the CDSFrame_shift kernel;
+      `location.num_blocks` of a CI is the number of blocks.
     * generators (`generator=True`): `yield from <list>` appends to the result list, which is returned at the end.
     * `if c: <plain assignments> else: <plain assignments>` to the same names, none of which occurs in c or in an
       assigned value, becomes one `let v := if c then a else b` per name (no duplication of the continuation).
@@ -467,6 +472,7 @@ CI_METHODS = {
 CI_METHOD_PARAMS = {"_combine_blocks": ["preserve_overlappers"]}
 # attributes of a CI-typed value: Python attribute -> (Lean projection, type); valid under `ci_view_guards`
 CI_ATTRS = {
+    "num_blocks": ("numBlocks", "Int"),
     "strand": ("strand", "Strand"),
     "blocks": ("blocks", "List:SI"),
     "_single_intervals": ("blocks", "List:SI"),
@@ -824,6 +830,49 @@ class K:
             if ta != tb:
                 raise Unsupported("conditional expression branches differ in type")
             return [], f"(if {self.as_prop(ct, tt)} then {ca} else {cb})", ta
+        if self.loops and isinstance(n, ast.List) and n.elts:
+            parts = [self.expr(e) for e in n.elts]
+            ts = {p_[2] for p_ in parts}
+            if len(ts) != 1 or lean_type("List:" + parts[0][2]) is None:
+                raise Unsupported(f"list literal of {sorted(ts)}")
+            return sum((p_[0] for p_ in parts), []), "[" + ", ".join(p_[1] for p_ in parts) + "]", "List:" + parts[0][2]
+        if self.loops and isinstance(n, ast.ListComp):
+            if len(n.generators) != 1 or n.generators[0].ifs or n.generators[0].is_async:
+                raise Unsupported("list comprehension: one `for` clause without conditions")
+            gen = n.generators[0]
+            bi, ci, ti = self.expr(gen.iter)
+            pat, targets = self.loop_target(gen.target, ti)
+            saved = dict(self.types)
+            for nm, _ in targets:
+                if nm in saved:
+                    raise Unsupported(f"comprehension variable {nm} shadows a local")
+            self.types.update(targets)
+            try:
+                be, ce, te = self.expr(n.elt)
+            finally:
+                self.types = saved
+            if be or lean_type("List:" + te) is None:
+                raise Unsupported("list comprehension with an effectful element")
+            return bi, f"(List.map (fun {pat} => {ce}) {ci})", "List:" + te
+        if self.loops and isinstance(n, ast.Subscript) and isinstance(n.slice, ast.Slice):
+            b, c, t = self.expr(n.value)
+            if not t.startswith("List:"):
+                raise Unsupported(f"slice of {t}")
+            sl = n.slice
+            def is_m1(x):
+                return isinstance(x, ast.UnaryOp) and isinstance(x.op, ast.USub) and isinstance(x.operand, ast.Constant) \
+                    and x.operand.value == 1
+            if sl.lower is None and is_m1(sl.upper) and sl.step is None:
+                return b, f"{c}.dropLast", t            # xs[:-1]
+            if sl.lower is None and sl.upper is None and is_m1(sl.step):
+                return b, f"{c}.reverse", t             # xs[::-1]
+            raise Unsupported(f"slice {ast.unparse(n)}")
+        if self.loops and isinstance(n, ast.Subscript) and self.index_kind(n.slice):
+            b, c, t = self.expr(n.value)
+            if t.startswith("List:") and lean_type(t[5:]) is not None:
+                tmp = self.fresh()
+                fn = "listGetFirst" if self.index_kind(n.slice) == "first" else "listGetLast"
+                return b + [(tmp, f"{fn} {c}")], tmp, t[5:]
         if isinstance(n, ast.Subscript):
             # int-keyed dict literal bound to a local name, or module-level dict keyed by a CoordFmt arg
             if isinstance(n.value, ast.Name) and n.value.id in self.types and self.types[n.value.id].startswith("Dict:"):
@@ -975,6 +1024,14 @@ class K:
                         tmp = self.fresh()
                         binds = sum((a[0] for a in args), [])
                         return binds + [(tmp, " ".join([kname, ch[0]] + [a[1] for a in args]))], tmp, rty
+                if self.loops and f.attr == "shift" and len(n.args) == 1 and not n.keywords:
+                    ba, ca, ta = self.expr(f.value)
+                    bb, cb, tb = self.expr(n.args[0])
+                    if ta == "CDSFrame" and tb == "Int":
+                        if "CDSFrame_shift" not in EMITTED:
+                            raise Unsupported("CDSFrame_shift not generated before its caller")
+                        tmp = self.fresh()
+                        return ba + bb + [(tmp, f"CDSFrame_shift {ca} {cb}")], tmp, "CDSFrame"
                 if f.attr == "relative_to" and len(n.args) == 1:
                     ba, ca, ta = self.expr(f.value)
                     bb, cb, tb = self.expr(n.args[0])
@@ -1001,6 +1058,16 @@ class K:
             tmp = self.fresh()
             return binds + [(tmp, f"optGet {c}")], tmp, "Int"
         return binds, c, t
+
+    @staticmethod
+    def index_kind(sl):
+        """`0` -> "first", `-1` -> "last", anything else -> None"""
+        if isinstance(sl, ast.Constant) and sl.value == 0 and not isinstance(sl.value, bool):
+            return "first"
+        if isinstance(sl, ast.UnaryOp) and isinstance(sl.op, ast.USub) and isinstance(sl.operand, ast.Constant) \
+                and sl.operand.value == 1:
+            return "last"
+        return None
 
     def forget(self, name):
         self.types.pop("#narrow:" + name, None)
@@ -1379,7 +1446,11 @@ class K:
         if isinstance(s, (ast.Assign, ast.AugAssign)):
             if isinstance(s, ast.AugAssign):
                 target = s.target
-                value = ast.BinOp(left=ast.Name(id=target.id, ctx=ast.Load()), op=s.op, right=s.value)
+                if self.loops and isinstance(target, ast.Subscript):
+                    value = ast.BinOp(left=ast.Subscript(value=target.value, slice=target.slice, ctx=ast.Load()),
+                                      op=s.op, right=s.value)
+                else:
+                    value = ast.BinOp(left=ast.Name(id=target.id, ctx=ast.Load()), op=s.op, right=s.value)
             else:
                 if self.loops and len(s.targets) > 1 and all(isinstance(t, ast.Name) for t in s.targets) \
                         and isinstance(s.value, ast.Constant):
@@ -1389,17 +1460,18 @@ class K:
                     raise Unsupported("multiple assignment")
                 target, value = s.targets[0], s.value
             if self.loops and isinstance(target, ast.Subscript) and isinstance(target.value, ast.Name) \
-                    and self.types.get(target.value.id) == "List:Int" and isinstance(target.slice, ast.UnaryOp) \
-                    and isinstance(target.slice.op, ast.USub) and isinstance(target.slice.operand, ast.Constant) \
-                    and target.slice.operand.value == 1 and isinstance(s, ast.Assign):
-                # xs[-1] = v
+                    and self.types.get(target.value.id, "").startswith("List:") and self.index_kind(target.slice):
+                # xs[0] = v / xs[-1] = v / xs[0] -= v   (for AugAssign `value` is already `xs[0] - v`)
                 xs = target.value.id
+                lt = self.types[xs]
                 b, c, t = self.expr(value)
-                if t != "Int":
-                    raise Unsupported(f"xs[-1] = <{t}>")
+                if t != lt[5:]:
+                    raise Unsupported(f"{ast.unparse(target)} = <{t}>")
+                self.check_state_type(xs, lt)
                 tmp = self.fresh()
-                return self.wrap(b + [(tmp, f"listSetLast {lname(xs)} {c}")],
-                                 f"let {lname(xs)} : List Int := {tmp}\n" + self.block(rest))
+                fn = "listSetFirst" if self.index_kind(target.slice) == "first" else "listSetLast"
+                return self.wrap(b + [(tmp, f"{fn} {lname(xs)} {c}")],
+                                 f"let {lname(xs)} : {lean_type(lt)} := {tmp}\n" + self.block(rest))
             if not isinstance(target, ast.Name):
                 raise Unsupported("assignment target")
             src = ast.unparse(value)
@@ -1623,6 +1695,10 @@ KERNELS = [
     dict(name="CompoundInterval_gap_list", file="location/location_impl.py", cls="CompoundInterval", fn="gap_list",
          args=[("self", "CI")], ret="List:SI", loops=True, locals={"gaps": "List:SI"},
          head=dict(skip=3, binds=("block_iter", "Iter1:SI"))),
+    # `location` is a parent-less CompoundInterval (a SingleInterval has num_blocks == 1 and returns at once)
+    dict(name="CDSInterval_construct_frames_from_location", file="gene/cds.py", cls="CDSInterval",
+         fn="construct_frames_from_location", args=[("location", "CI"), ("starting_frame", "CDSFrame")],
+         ret="List:CDSFrame", loops=True),
 ]
 
 
